@@ -926,11 +926,37 @@ func (p *Program) renames(fi *FuncInfo) map[string]string {
 			fresh[varType(c)] = append(fresh[varType(c)], n)
 		}
 	}
+	// first by (type, number of declarations of that name in the function), then by type alone, each in source order
+	recCnt, curCnt := map[string]int{}, map[string]int{}
+	for _, r := range rec {
+		recCnt[varName(r)]++
+	}
+	for _, c := range cur {
+		curCnt[varName(c)]++
+	}
+	usedFresh := map[string]bool{}
 	for t, gs := range gone {
-		fs := fresh[t]
-		for k, g := range gs {
-			if k < len(fs) {
-				m[g] = fs[k]
+		for _, g := range gs {
+			for _, f := range fresh[t] {
+				if !usedFresh[f] && curCnt[f] == recCnt[g] {
+					m[g] = f
+					usedFresh[f] = true
+					break
+				}
+			}
+		}
+	}
+	for t, gs := range gone {
+		for _, g := range gs {
+			if m[g] != "" {
+				continue
+			}
+			for _, f := range fresh[t] {
+				if !usedFresh[f] {
+					m[g] = f
+					usedFresh[f] = true
+					break
+				}
 			}
 		}
 	}
